@@ -146,6 +146,17 @@ def run_check(mod, tier: str, seed: int, budget_s: float | None = None, replay: 
                 viol_lines.append(f"VIOLATION property={pid} replay={path}")
                 print(f"  -> {v['what'][:300]}", flush=True)
                 print(viol_lines[-1], flush=True)
+    if n_viol or harness_errors:
+        import re
+
+        classes = Counter()
+        for res in results:
+            for v in res["violations"]:
+                if v.get("key") in known:
+                    continue
+                classes[re.sub(r"\d+", "#", v["what"])[:140]] += 1
+        for cls, cnt in classes.most_common(12):
+            print(f"  class x{cnt}: {cls}", flush=True)
     for key, cnt in seen_known.items():
         known_lines.append(f"KNOWN-FINDING: property={pid} {key}: matched {cnt} case(s) in this run")
     for line in known_lines:
